@@ -147,7 +147,7 @@ func (d sibDiff) sig() string {
 }
 
 func cmdSiblings(args []string) int {
-	p, err := load(loadOpts{repo: "/repo"})
+	p, err := load(loadOpts{repo: dumpRepo()})
 	if err != nil {
 		fmt.Fprintln(os.Stderr, err)
 		return 2
@@ -232,7 +232,7 @@ func collectCalls(p *Prog) map[string][]string {
 }
 
 func cmdSiblingCalls() int {
-	p, err := load(loadOpts{repo: "/repo"})
+	p, err := load(loadOpts{repo: dumpRepo()})
 	if err != nil {
 		fmt.Fprintln(os.Stderr, err)
 		return 2
